@@ -19,6 +19,9 @@ CHECKS = {
  "C05": ("other", "whole-program inventory of global-storage objects and stateful libc calls + call-graph reachability",
          "Decides: R-GLOBAL (every mutable global and stateful libc call reachable from a conversion is enumerated and must be allowed by the property's own terms), R-RESET (every container of the engine is cleared before a re-parse), R-INIT (no indeterminate heap value is read), R-SRCCONST (the conversion cone never writes the caller's source). Does not decide byte equality of outputs as such.",
          "§3 C05"),
+ "C19": ("other", "dominator / post-dominator obligations and a relational interval fact (pos <= length) on the CFGs of d_string.c; field-write coherence census outside it",
+         "Decides the structural discipline the string model rests on: capacity ensured for exactly the stored length before every growing write, NUL re-stored after every length change, positions clamped or rejected before addressing, the -1 forms tested first, ensureStringBufferCanHold reserving size+1 and recording what it reallocated, and DString fields written coherently outside d_string.c. Does not decide equality with an ideal string (memmove lengths are not verified).",
+         "§3 C19"),
  "C17": ("other", "same inventory on the -DDISABLE_OBJECT_POOL configuration with an empty allow list",
          "Decides the 'no shared mutable state' clause for the pool-disabled build; does not decide byte equality across threads.",
          "§3 C17"),
